@@ -10,6 +10,7 @@ package types
 // ======================================================================= L1: wire formats (C16)
 
 //@ func (Message) Parse(bz) (out, err)
+//@ serves C16
 //@ ensures[len]    (err != nil) <==> (len(bz) < 116)
 //@ ensures[nil]    err != nil ==> out == nil
 //@ ensures[fields] err == nil ==> out.Version == u32be(bz, 0) && out.SourceDomain == u32be(bz, 4) && out.DestinationDomain == u32be(bz, 8) && out.Nonce == u64be(bz, 12)
@@ -17,11 +18,13 @@ package types
 //@ ensures[body]   err == nil ==> out.MessageBody == bz[116:]
 
 //@ func (Message) Bytes() (out, err)
+//@ serves C16
 //@ ensures[len]    (err == nil) <==> (len($recv.Sender) == 32 && len($recv.Recipient) == 32 && len($recv.DestinationCaller) == 32)
 //@ ensures[layout] err == nil ==> out == encMessage($recv.Version, $recv.SourceDomain, $recv.DestinationDomain, $recv.Nonce, $recv.Sender, $recv.Recipient, $recv.DestinationCaller, $recv.MessageBody)
 //@ ensures[nonnil] err == nil ==> out != nil
 
 //@ func (BurnMessage) Parse(bz) (out, err)
+//@ serves C16
 //@ ensures[len]    (err != nil) <==> (len(bz) != 132)
 //@ ensures[nil]    err != nil ==> out == nil
 //@ ensures[fields] err == nil ==> out.Version == u32be(bz, 0) && out.BurnToken == bz[4:36] && out.MintRecipient == bz[36:68] && out.MessageSender == bz[100:132]
@@ -29,6 +32,7 @@ package types
 
 // FillBytes panics on a nil or out-of-range amount: callers must establish the range.
 //@ func (BurnMessage) Bytes() (out, err)
+//@ serves C16
 //@ requires[amount] !$recv.Amount.isnil && $recv.Amount.v >= 0
 //@ ensures[len]    (err == nil) <==> (len($recv.BurnToken) == 32 && len($recv.MintRecipient) == 32 && len($recv.MessageSender) == 32)
 //@ ensures[layout] err == nil ==> out == encBurn($recv.Version, $recv.BurnToken, $recv.MintRecipient, $recv.Amount, $recv.MessageSender)
